@@ -599,4 +599,10 @@ def arg_forward_rule(ctx):
     return arg_forward(ctx, 'ARG-FORWARD', 30)
 
 
-RULES = [arg_forward_rule, no_stale, records, arg_names_rule, list_space, record_fresh, operand_attr, parabasal, distortion, radii]
+def c03_fields(ctx):
+    """shared with C03: normalised field coordinates of fields='all' and the
+    wavelength unit table (the documented samples of every analysis)"""
+    from .C03 import field_wiring as _r
+    return _r(ctx)
+
+RULES = [c03_fields, arg_forward_rule, no_stale, records, arg_names_rule, list_space, record_fresh, operand_attr, parabasal, distortion, radii]
